@@ -12,7 +12,7 @@ def log(*a):
 
 def child_env():
     e = dict(os.environ)
-    e['PYTHONPATH'] = '/repo:/verif'
+    e['PYTHONPATH'] = os.environ.get('VERIF_REPO', '/repo') + ':/verif'
     e['PYTHONDONTWRITEBYTECODE'] = '1'
     e.setdefault('PYTHONHASHSEED', '0')
     e['TOPSIM_VERIF'] = '1'
@@ -107,7 +107,7 @@ def main(argv):
         for k in ('outside_bounds', 'stubs', 'assumptions'):
             meta[k] += [x for x in m.get(k, []) if x not in meta[k]]
     # contracts may only sit on harness entry functions: the code under test must not carry PEP-316 lines
-    rc = subprocess.run('grep -rEl "^\\s*(pre|post|inv|raises):" /repo/topsim --include=*.py', shell=True, capture_output=True, text=True)
+    rc = subprocess.run('grep -rEl "^\\s*(pre|post|inv|raises):" %s/topsim --include=*.py' % os.environ.get('VERIF_REPO', '/repo'), shell=True, capture_output=True, text=True)
     if rc.stdout.strip():
         log('harness error: PEP-316 contract lines found in code under test:', rc.stdout)
         return 2
@@ -214,8 +214,9 @@ def main(argv):
         'assumptions': meta['assumptions'] + meta['stubs'],
         'wall_s': round(time.time() - t0, 1), 'violations': len(violations),
     }
-    os.makedirs(f'{ROOT}/evidence', exist_ok=True)
-    json.dump(ev, open(f'{ROOT}/evidence/{prop}.json', 'w'), indent=1, default=str)
+    evdir = os.environ.get('VERIF_EVIDENCE_DIR', f'{ROOT}/evidence')
+    os.makedirs(evdir, exist_ok=True)
+    json.dump(ev, open(f'{evdir}/{prop}.json', 'w'), indent=1, default=str)
     log(f"[{prop}/{tier}] paths={paths} queries={queries} confirmed={ev['coverage']['shards_confirmed']}/{len(main_r)} "
         f"incomplete={len(incomplete)} violations={len(violations)} errors={len(harness_errors)} wall={ev['wall_s']}s")
     if violations:
